@@ -514,6 +514,54 @@ def run(ctx):
         submit(gen_instance(rng, long_thin=True), brute=False)
     flush()
 
+    # ---- deep columns (17-20 reads over one column: at and beyond the CLI's coverage limits 15 / 23).  2^20 table rows are
+    # out of reach for the enumeration and for the executable model's DP, so these instances are PLANTED: reads copied from
+    # two hidden haplotypes, a few with errors.  Checked: the returned (partition, transmission) evaluates (c01.eval, linear)
+    # to the reported cost; the reported cost does not exceed the cost of the planted partition (0 without errors); the
+    # super reads are those of the returned partition.
+    deep = []
+    for _ in range((6 if ctx.quick else 60) * ctx.scale):
+        ncols = rng.randrange(3, 7)
+        nreads = rng.randrange(17, 21)
+        truth = [[rng.randrange(2) for _ in range(ncols)]]
+        truth.append([1 - a for a in truth[0]])
+        n_err = rng.choice([0, 0, 1, 3])
+        reads, planted = [], []
+        for k in range(nreads):
+            last = rng.randrange(1, ncols)
+            h = rng.randrange(2) if k < nreads - 4 else 1     # late reads (high bits of the index) on the "1" side
+            reads.append({"ind": 0, "first": 0, "last": last, "entries": [[c, truth[h][c], rng.choice([3, 10, 30])] for c in range(last + 1)]})
+            planted.append(h)
+        for _e in range(n_err):
+            r = rng.choice(reads); e = rng.choice(r["entries"]); e[1] = 1 - e[1]
+        inst = {"ncols": ncols, "reads": reads, "nind": 1, "trios": [], "geno": [[[None, 0, None] for _ in range(ncols)]],
+                "recomb": [0] * ncols, "mode": "trusted", "use_positions": True}
+        ctx.inflight({"instance": {**model_inst(inst), "mode": "trusted", "use_positions": True}})
+        impl = run_impl(inst)
+        ctx.evaluated(); ctx.dist("max_coverage", nreads); ctx.dist("deep_planted", f"{n_err} errors")
+        raw = impl.pop("raw")
+        inst = reorder(inst, impl["order"])
+        planted = [planted[k] for k in impl["order"]]
+        deep.append((inst, impl, planted, raw))
+    dreqs = []
+    for inst, impl, planted, raw in deep:
+        dreqs.append({"op": "c01.eval", "raw": raw, "beta": [bool(x) for x in impl["partition"]], "tau": impl["tau"]})
+        dreqs.append({"op": "c01.eval", "raw": raw, "beta": [bool(x) for x in planted], "tau": [0] * inst["ncols"]})
+    dans = ctx.model.ask_many(dreqs)
+    for k, (inst, impl, planted, raw) in enumerate(deep):
+        case = {"instance": {**model_inst(inst), "mode": "trusted", "use_positions": True}}
+        ev, pl = dans[2 * k], dans[2 * k + 1]
+        if ev["cost"] != impl["cost"]:
+            ctx.fail(f"returned partition/transmission evaluate to {ev['cost']} under the MEC objective, reported cost is "
+                     f"{impl['cost']} ({len(inst['reads'])} reads cover one column)", {**case, "impl": impl}, key="witness-cost")
+        if pl["cost"] is not None and impl["cost"] > pl["cost"]:
+            ctx.fail(f"reported cost {impl['cost']} exceeds the cost {pl['cost']} of the planted bipartition: not the minimum",
+                     {**case, "impl": impl, "planted": planted}, key="not-optimal")
+        isr = [[[dict(impl["superreads"][i][0]).get(c), dict(impl["superreads"][i][1]).get(c)] for i in range(1)] for c in range(inst["ncols"])]
+        if ev["superreads"] != isr:
+            ctx.disagree("c01.eval.superreads", case, isr, ev["superreads"])
+        ctx.nontrivial(json.dumps(model_inst(inst), sort_keys=True))
+
     # ---- inputs the constructor refuses: the exception must be the rejection reason of `mkInst`
     rej = [run_rejected(rng) for _ in range((80 if ctx.quick else 1500) * ctx.scale)]
     for (raw, msg), a in zip(rej, ask_bounded(ctx.model, [{"op": "c01.mkinst", "raw": r} for r, _ in rej])):
